@@ -53,6 +53,8 @@ def protocol_obj():
 
 def ops():
     def first_out(m):
+        if not m.outputs():
+            raise ValueError('the model has no selected output')          # treated like a rejected request; the predicates then name what went wrong
         return m.outputs()[0]
 
     def all_states(m):
@@ -124,6 +126,8 @@ def run_history(chi_sym, mk, seq, opmap):
     m = mk()
     done = []
     for name in seq:
+        outs_before = list(m._output_names)
+        names_before = dict(zip(m._output_names, m.outputs()))
         try:
             r = opmap[name](m)
         except EXPECTED_ERRORS as ex:
@@ -161,13 +165,21 @@ def run_history(chi_sym, mk, seq, opmap):
                 if observable(m) != orig_obs:
                     return ('copy.separate', 'applying %s to a copy changed the original' % on, done)
             m = c            # continue the history on the copy
+        if not name.startswith(('out_', 'rename_out')):
+            # only an output selection changes the selected outputs: every other call keeps them, in order and under their published names,
+            # as far as the variables still exist in the model (a change of the route of administration removes / adds the dose compartment)
+            want = [o for o in outs_before if m._model.has_variable(o)]
+            if list(m._output_names) != want:
+                return ('outputs.kept', 'the selected outputs were %s before the call and are %s after it (the model still has %s)' % (outs_before, list(m._output_names), want), done)
+            if not name.startswith('adm_') and dict(zip(m._output_names, m.outputs())) != {o: names_before[o] for o in want}:
+                return ('outputs.kept', 'the published output names were %s before the call and are %s after it' % (names_before, dict(zip(m._output_names, m.outputs()))), done)
         bad = predicates(chi_sym, mk, m)
         if bad:
             return (bad[0], bad[1], done)
     return None
 
 
-PRED = ['regimen.applied', 'tables.consistent', 'model.surgery', 'flags.consistent', 'copy.equal', 'copy.separate', 'copy.regimen.applied', 'copy.tables.consistent',
+PRED = ['regimen.applied', 'tables.consistent', 'model.surgery', 'flags.consistent', 'outputs.kept', 'copy.equal', 'copy.separate', 'copy.regimen.applied', 'copy.tables.consistent',
         'copy.model.surgery', 'copy.flags.consistent']
 
 
